@@ -40,7 +40,7 @@ def _worker(args):
 def run(ctx):
     n = ctx.n(150, 3000)
     rng = random.Random(ctx.seed)
-    cases = [evocase.gen_case(rng, {"pkey_move": i % 5 < 2}) for i in range(n)]
+    cases = [evocase.gen_case(rng, {"pkey_move": i % 5 < 2, "trashbin": True}) for i in range(n)]
     with ProcessPoolExecutor(max_workers=14) as ex:
         res = list(ex.map(_worker, [(c, os.path.join(ctx.work, f"e{i}")) for i, c in enumerate(cases)], chunksize=2))
     errs = [(i, r[3]) for i, r in enumerate(res) if r[3]]
